@@ -18,8 +18,10 @@ SCHEMA = [Opt('int', b'i', 0, 7, cbs=('parse:0', 'valid:0')), Opt('int', b'j', 0
           Opt('str', b's', 0, b'd', cbs=('parse:1',)), Opt('intl', b'il', 0, b'{1}', cbs=('parse:2', 'valid:2')),
           Opt('strl', b'sl', 0, None, cbs=('valid:3',)), Opt('bool', b'b', 0, 0, cbs=('parse:0',)),
           Opt('sec', b'sec', 0, None, [Opt('int', b'a', 0, 1, cbs=('valid:1',))], cbs=('valid:0',)),
-          Opt('sec', b'm', F['MULTI'], None, [Opt('int', b'a', 0, 1, cbs=('parse:1',)), Opt('strl', b'l', 0, None, cbs=('valid:2',))], cbs=('valid:2',)),
+          Opt('sec', b'm', F['MULTI'], None, [Opt('int', b'a', 0, 1, cbs=('parse:1',)), Opt('strl', b'l', 0, None, cbs=('valid:2',)), Opt('int', b'u', 0, 0)], cbs=('valid:2',)),
           Opt('func', b'fn', func='user:1'), Opt('func', b'g', func='user:2'), Opt('flt', b'f', 0, 0.5, cbs=('parse:3',)),
+          # deprecated options (one of them dropped after the parse) are validated like any other
+          Opt('int', b'od', F['DEPRECATED'] | F['DROP'], 1, cbs=('valid:1',)), Opt('int', b'dp', F['DEPRECATED'], 2, cbs=('parse:0', 'valid:2')),
           Opt('int', b'late', 0, 5), Opt('ptr', b'p', 0, cbs=('parse:1',)), Opt('ptrl', b'pl', 0, None, cbs=('parse:2',))]
 
 TOK = {b'5': b'5', b'0x10': b'0x10', b'"a b"': b'a b', b'word': b'word', b'"q\\"r"': b'q"r', b"'s q'": b's q', b'${V}': b'env', b'""': b''}
@@ -102,7 +104,7 @@ def rand_items(r):
         c = r.below(10)
         t = lambda: r.pick(list(TOK))
         if c == 0:
-            items.append(('scalar', r.pick([b'i', b'j', b's', b'b', b'f', b'p']), t()))
+            items.append(('scalar', r.pick([b'i', b'j', b's', b'b', b'f', b'p', b'od', b'dp', b'od']), t()))
         elif c in (1, 2):
             nm = r.pick([b'il', b'sl', b'pl'])
             items.append(('list', nm, [t() for _ in range(r.below(4))], True, r.pick([b'=', b'+='])))
@@ -184,8 +186,26 @@ def generate(rng, tier):
                 yield Scn('v2-%d' % n, lines, {'class': 'validate2', 'kind': 'v2', 'K': K, 'fail': fail, 'path': path, 'arg': args[0], 'setter': setter})
 
 
+    # callbacks registered by a path through a multi section AFTER instances exist: they bind the option, so every
+    # instance created later has them (at parse time and in the by-name setters)
+    for ninst in (0, 1, 2):
+        for k in (0, 1):
+            n += 1
+            lines = gen.prelude(SCHEMA, 0) + ['parse_buf 0 ' + hx(b'm { u = 1 }\n' * ninst), 'validate 0 %s 3' % hx(b'm|u'), 'validate2 0 %s 1' % hx(b'm|u')]
+            if k:
+                lines.append('failat 1')
+            lines += ['parse_buf 0 ' + hx(b'm { u = 2 }\nlate = 99\n'), 'dump 0']
+            want = ['v3:%s:1' % hx(b'u') + ('!' if k else '')] + ([] if k else ['v2:%s:%d' % (hx(b'm'), ninst + 1)])
+            yield Scn('late%d' % n, lines, {'class': 'registered-late/%d' % ninst, 'log': want, 'k': k, 'kind': 'parse'})
+            n += 1
+            lines = gen.prelude(SCHEMA, 0) + ['parse_buf 0 ' + hx(b'm { u = 1 }\n' * ninst), 'validate2 0 %s 1' % hx(b'm|u'),
+                                              'parse_buf 0 ' + hx(b'm { u = 2 }\n'), 'dump 0'] + (['failat 1'] if k else []) + \
+                    ['setint 0 %s -7 0' % hx(b'm=%d|u' % ninst), 'dump 0']
+            yield Scn('late%d' % n, lines, {'class': 'registered-late/setter', 'kind': 'v2', 'K': 1, 'fail': k, 'path': b'm=%d|u' % ninst, 'arg': '-7', 'setter': 'setint'})
+
+
 def nontrivial(scn, il):
-    return scn.meta['kind'] == 'v2' or len(scn.meta['log']) >= 3
+    return scn.meta['kind'] == 'v2' or len(scn.meta['log']) >= 3 or scn.meta['class'].startswith('registered-late')
 
 
 def oracle(scn, il):
